@@ -21,7 +21,11 @@ CaseOf(s) == [api |-> s.api, n |-> s.n, workers |-> s.workers, mb |-> s.mb, rsto
               allowed |-> Outcomes(s),
               mapAll |-> MustMapAll(s), deliverAll |-> MustDeliverAll(s),
               written |-> Written(s),
-              late |-> HasLate(s)]
+              late |-> HasLate(s),
+              \* error name per canceller (index 1 = the reducer, k+1 = the mapper of item k), "" = does not cancel
+              cerr |-> [k \in 1..(s.n + 1) |->
+                         IF k = 1 THEN (IF s.rend = "cancel" THEN "ER" ELSE "")
+                         ELSE IF s.mb[k - 1] \in {"cancelE", "cancelNil"} THEN ErrOf(s, k - 1) ELSE ""]]
 
 Emit == PrintT(ToJson(CaseOf(sc)))
 SaneInv == Sane(sc)
